@@ -144,14 +144,14 @@ def rule_window(check):
             vals[fl["name"]] = hir.lit_value(fl["e"])
     check.expect(vals.get("min_literal_length") == 10 and vals.get("max_literal_length") == 256, R, R + "/constants", hir.loc(d.rec), "min=10 max=256", "window constants are %s" % {k: v for k, v in vals.items() if "length" in k})
     a = prog.fn("LiteralVisitor::add_literal")
-    ins = [n for n in hir.calls_in(a.body, name="insert")]
-    check.floor(R, "insertions in add_literal", len(ins), 1)
+    ins = [n for n in hir.walk(a.body) if hir.is_call(n) and (hir.callee_name(n) or n.get("method")) in ("insert", "push", "push_back", "or_insert", "or_insert_with", "or_default", "extend")]
+    check.floor(R, "recordings in add_literal", len(ins), 1)
     for n in ins:
         atoms = gate.atoms_at(a, n)
         cmps = sorted((x[1], _side(x[2]), _side(x[3]), x[4]) for x in atoms if x[0] == "cmp")
         want = sorted([("Gt", "len(value)", "self.min_literal_length", True), ("Le", "len(value)", "self.max_literal_length", True)])
         others = [x for x in atoms if x[0] not in ("cmp", "closure") and not (x[0] == "call" and x[1] == "contains_key")]
-        check.expect(cmps == want and not others, R, "%s/condition/%s" % (R, "set" if "HashSet" in hir.peel(hir.call_args(n)[0]).get("ty", "") else "map"), hir.loc(n), "recorded iff len > min && len <= max", "literal recorded under %s %s" % (cmps, [hir.describe(x[-1]) if isinstance(x[-1], dict) and "k" in x[-1] else x[:3] for x in others]))
+        check.expect(cmps == want and not others, R, "%s/condition/%s" % (R, "set" if "Set<" in hir.peel(hir.call_args(n)[0]).get("ty", "") else "vec" if "Vec<" in hir.peel(hir.call_args(n)[0]).get("ty", "") else "map"), hir.loc(n), "recorded iff len > min && len <= max", "literal recorded under %s %s" % (cmps, [hir.describe(x[-1]) if isinstance(x[-1], dict) and "k" in x[-1] else x[:3] for x in others]))
     pv = Prov(prog)
     lens = [n for n in hir.calls_in(a.body, name="len")]
     for n in lens:
@@ -188,13 +188,27 @@ def rule_dedupe(check):
     R = "DEDUPE-KEY"
     check.rule(R, "PartialEq and Hash of SpanAndIdent use exactly the span; the ident-bearing occurrence is recorded before the children are visited (first insertion wins)")
     prog = check.prog
-    for tr_name, fn_name in (("PartialEq", "eq"), ("Hash", "hash")):
-        fs = [f for f in prog.fns if f.body is not None and f.name == fn_name and (f.rec.get("self_ty") or "").endswith("SpanAndIdent") and (f.rec.get("impl_of_trait") or "").endswith(tr_name)]
+    import re
+
+    lv = prog.adt(LV)
+    fld = [x for v in lv["variants"] for x in v["fields"] if "SpanAndIdent" in x["ty"] or "Span" in x["ty"]]
+    if len(fld) != 1:
+        raise AnchorMissing("the field of LiteralVisitor that holds the recorded locations")
+    ty = fld[0]["ty"]
+    m = re.search(r"(HashSet|BTreeSet)<([A-Za-z0-9_:]+)", ty)
+    if not m:
+        check.bad(R, R + "/collection", hir.loc(prog.fn("LiteralVisitor::add_literal").rec), "LiteralVisitor.%s is a %s: the locations of one literal are not kept in a set keyed by the span, so an occurrence visited twice (named initialiser + generic visit, operands copied into a hook) is reported twice - Vec::dedup* only removes adjacent entries" % (fld[0]["name"], re.sub(r"[a-z_]+::", "", ty)[:90]))
+        return
+    check.ok(R, R + "/collection", "-", "locations of one literal are kept in a %s<%s>" % (m.group(1), m.group(2).split("::")[-1]))
+    elem = m.group(2).split("::")[-1]
+    traits = (("PartialEq", "eq"), ("Hash", "hash")) if m.group(1) == "HashSet" else (("PartialEq", "eq"), ("Ord", "cmp"))
+    for tr_name, fn_name in traits:
+        fs = [f for f in prog.fns if f.body is not None and f.name == fn_name and (f.rec.get("self_ty") or "").endswith(elem) and (f.rec.get("impl_of_trait") or "").endswith(tr_name)]
         if len(fs) != 1:
-            raise AnchorMissing("%s for SpanAndIdent" % tr_name)
+            raise AnchorMissing("%s for %s" % (tr_name, elem))
         f = fs[0]
-        fields = sorted({n["field"] for n in hir.walk(f.body) if n.get("k") == "Field" and "SpanAndIdent" in (n.get("base_ty") or "")})
-        check.expect(fields == ["span"] and not f.rec.get("gen"), R, "%s/%s" % (R, tr_name), hir.loc(f.rec), "%s uses %s" % (tr_name, fields), "%s for SpanAndIdent uses fields %s (must be exactly span)" % (tr_name, fields))
+        fields = sorted({n["field"] for n in hir.walk(f.body) if n.get("k") == "Field" and elem in (n.get("base_ty") or "")})
+        check.expect(fields == ["span"] and not f.rec.get("gen"), R, "%s/%s" % (R, tr_name), hir.loc(f.rec), "%s uses %s" % (tr_name, fields), "%s for %s uses fields %s (must be exactly span)" % (tr_name, elem, fields))
     from ..trav import AdtGraph, Traversal
 
     graph = AdtGraph(prog.adts)
